@@ -68,13 +68,19 @@
 (*    the implementation's constant folding.                               *)
 (***************************************************************************)
 EXTENDS BV
+LOCAL INSTANCE TLC
+
+\* TLC evaluates function constructors lazily and re-evaluates them on every application; a chain of
+\* bit-vector operations would cost time exponential in its length.  Norm forces a value (a bit
+\* vector) into an explicit sequence.  It is the identity.
+Norm(v) == TLCEval(v)
 
 Poison == <<>>                       \* a bit vector is never empty
 IsPoison(v) == v = Poison
 
 \* function update / removal with a growing / shrinking domain
-Upd(f, x, v) == [y \in (DOMAIN f) \cup {x} |-> IF y = x THEN v ELSE f[y]]
-Del(f, x) == [y \in (DOMAIN f) \ {x} |-> f[y]]
+Upd(f, x, v) == Norm([y \in (DOMAIN f) \cup {x} |-> IF y = x THEN v ELSE f[y]])
+Del(f, x) == Norm([y \in (DOMAIN f) \ {x} |-> f[y]])
 EmptyFcn == [x \in {} |-> 0]
 NoRegs == <<>>
 NoMem == EmptyFcn
@@ -96,17 +102,17 @@ HavocByte(seed, n, r, b) == Fin(Mix(Mix(Mix(Mix(seed % 65521, 113), n % 65521), 
 (***************************************************************************)
 (* Memory                                                                  *)
 (***************************************************************************)
-AddrPlus(a, i) == IF i >= 0 THEN BvAdd(a, BvFromNat(i, Len(a))) ELSE BvSub(a, BvFromNat(-i, Len(a)))
+AddrPlus(a, i) == Norm(IF i >= 0 THEN BvAdd(a, BvFromNat(i, Len(a))) ELSE BvSub(a, BvFromNat(-i, Len(a))))
 MemByte(mem, a, seed) == IF a \in DOMAIN mem THEN mem[a] ELSE InitMem(a, seed)
 \* the size bytes at address a, as a bit vector (least significant byte first)
 LoadBytes(mem, a, size, env) ==
-  [i \in 1..size |-> MemByte(mem, AddrPlus(a, IF env.le THEN i - 1 ELSE size - i), env.seed)]
+  Norm([i \in 1..size |-> MemByte(mem, AddrPlus(a, IF env.le THEN i - 1 ELSE size - i), env.seed)])
 StoreBytes(mem, a, v, env) ==
   LET size == Len(v)
       at == [i \in 1..size |-> AddrPlus(a, IF env.le THEN i - 1 ELSE size - i)]   \* address of byte v[i]
       new == {at[i] : i \in 1..size}
-  IN [x \in (DOMAIN mem) \cup new |->
-        IF x \in new THEN v[CHOOSE i \in 1..size : at[i] = x] ELSE mem[x]]
+  IN Norm([x \in (DOMAIN mem) \cup new |->
+             IF x \in new THEN v[CHOOSE i \in 1..size : at[i] = x] ELSE mem[x]])
 
 (***************************************************************************)
 (* Expressions                                                             *)
@@ -151,10 +157,10 @@ EvalExpr(e, regs) ==
     [] e.k = "const" -> e.c
     [] e.k = "bin" -> LET a == EvalExpr(e.l, regs)
                           b == EvalExpr(e.r, regs)
-                      IN IF IsPoison(a) \/ IsPoison(b) THEN Poison ELSE IrBinOp(e.op, a, b)
-    [] e.k = "un" -> LET a == EvalExpr(e.a, regs) IN IF IsPoison(a) THEN Poison ELSE IrUnOp(e.op, a)
-    [] e.k = "cast" -> LET a == EvalExpr(e.a, regs) IN IF IsPoison(a) THEN Poison ELSE IrCast(e.op, a, e.s)
-    [] e.k = "sub" -> LET a == EvalExpr(e.a, regs) IN IF IsPoison(a) THEN Poison ELSE IrSubpiece(a, e.low, e.s)
+                      IN IF IsPoison(a) \/ IsPoison(b) THEN Poison ELSE Norm(IrBinOp(e.op, a, b))
+    [] e.k = "un" -> LET a == EvalExpr(e.a, regs) IN IF IsPoison(a) THEN Poison ELSE Norm(IrUnOp(e.op, a))
+    [] e.k = "cast" -> LET a == EvalExpr(e.a, regs) IN IF IsPoison(a) THEN Poison ELSE Norm(IrCast(e.op, a, e.s))
+    [] e.k = "sub" -> LET a == EvalExpr(e.a, regs) IN IF IsPoison(a) THEN Poison ELSE Norm(IrSubpiece(a, e.low, e.s))
     [] OTHER -> Poison                                   \* "unknown"
 
 (***************************************************************************)
@@ -169,7 +175,7 @@ EvalExpr(e, regs) ==
 (*   mem   the written memory (call/return/deadend)                        *)
 (***************************************************************************)
 Obs(k, a, s, v, t, regs, mem) == [k |-> k, a |-> a, s |-> s, v |-> v, t |-> t, regs |-> regs, mem |-> mem]
-PhysRegs(st, env) == [i \in 1..Len(env.physregs) |-> ReadVar(env.physregs[i], st.regs)]
+PhysRegs(st, env) == Norm([i \in 1..Len(env.physregs) |-> ReadVar(env.physregs[i], st.regs)])
 Emit(st, o) == [st EXCEPT !.obs = Append(@, o), !.n = @ + 1]
 ObsState(k, a, t, st, env) == Obs(k, a, 0, Poison, t, PhysRegs(st, env), st.mem)
 
@@ -223,7 +229,7 @@ Havoc(st, env) ==
       mem == [x \in (DOMAIN st.mem) \cup new |->
                 IF x \in new THEN HavocByte(env.seed, n, 1000 + (CHOOSE k \in slots : at[k] = x), 0)
                 ELSE st.mem[x]]
-  IN [st EXCEPT !.regs = regs, !.mem = mem]
+  IN [st EXCEPT !.regs = Norm(regs), !.mem = Norm(mem)]
 
 AfterCall(st, ret, env) == IF ret = "" THEN Halt(st, "call-noreturn") ELSE Goto(Havoc(st, env), ret)
 
